@@ -670,12 +670,70 @@ def gen_adam7(src_dir, report):
         report['expand_pass.store'] = 'untranslatable: %s' % ex; return None
     return out
 
+def gen_stream(src_dir, report):
+    out = HEADER % 'src/chunk.rs, src/decoder/stream.rs, src/decoder/zlib.rs, src/decoder/mod.rs'
+    ck = strip_comments(open(os.path.join(src_dir, 'chunk.rs')).read())
+    consts = re.findall(r'pub const (\w+): ChunkType = ChunkType\(\*b"(....)"\);', ck)
+    if len(consts) < 22:
+        report['chunk.consts'] = 'untranslatable: %d constants' % len(consts); return None
+    for n, v in consts:
+        b = [ord(c) for c in v]
+        out += "Definition ct_%s : Z := %d.  (* %s *)\n" % (n, ((b[0]*256+b[1])*256+b[2])*256+b[3], v)
+    report['chunk.consts'] = 'regenerated'
+    m = re.search(r'pub fn is_critical\(ChunkType\(type_\): ChunkType\) -> bool \{\s*type_\[0\] & (\d+) == 0\s*\}', ck)
+    if not m:
+        report['chunk.is_critical'] = 'untranslatable'; return None
+    out += "Definition is_critical (ty : Z) : bool := Z.land (ty / 16777216) %s =? 0.\n" % m.group(1)
+    report['chunk.is_critical'] = 'regenerated'
+    st = strip_comments(open(os.path.join(src_dir, 'decoder', 'stream.rs')).read())
+    m = re.search(r'pub const CHUNK_BUFFER_SIZE: usize = ([\d\s\*]+);', st)
+    if not m:
+        report['CHUNK_BUFFER_SIZE'] = 'untranslatable'; return None
+    out += "Definition CHUNK_BUFFER_SIZE : Z := %d.\n" % eval(m.group(1))
+    report['CHUNK_BUFFER_SIZE'] = 'regenerated'
+    m1 = re.search(r'if bytes == \[(\d+), (\d+), (\d+), (\d+)\] \{\s*self\.state = Some\(State::new_u32\(U32ValueKind::Signature2ndU32\)\)', st)
+    m2 = re.search(r'if bytes == \[(\d+), (\d+), (\d+), (\d+)\] \{\s*self\.state = Some\(State::new_u32\(U32ValueKind::Length\)\)', st)
+    if not (m1 and m2):
+        report['signature'] = 'untranslatable'; return None
+    out += "Definition SIG1 : list Z := [%s].\nDefinition SIG2 : list Z := [%s].\n" % ("; ".join(m1.groups()), "; ".join(m2.groups()))
+    report['signature'] = 'regenerated'
+    m = re.search(r'impl Default for DecodeOptions \{\s*fn default\(\) -> Self \{\s*Self \{\s*ignore_adler32: (\w+),\s*ignore_crc: (\w+),\s*ignore_text_chunk: (\w+),\s*ignore_iccp_chunk: (\w+),\s*skip_ancillary_crc_failures: (\w+),', st)
+    if not m:
+        report['DecodeOptions::default'] = 'untranslatable'; return None
+    out += "Definition default_options : bool * bool * bool * bool * bool := (%s, %s, %s, %s, %s).  (* ignore_adler32, ignore_crc, ignore_text_chunk, ignore_iccp_chunk, skip_ancillary_crc_failures *)\n" % m.groups()
+    report['DecodeOptions::default'] = 'regenerated'
+    m = re.search(r'matches!\(\s*type_str,\s*((?:chunk::\w+\s*\|?\s*)+)\)', st)
+    if not m:
+        report['parse_chunk.benign'] = 'untranslatable'; return None
+    names = re.findall(r'chunk::(\w+)', m.group(1))
+    out += "Definition benign_chunks : list Z := [%s].\n" % "; ".join("ct_" + n for n in names)
+    report['parse_chunk.benign'] = 'regenerated'
+    zl = strip_comments(open(os.path.join(src_dir, 'decoder', 'zlib.rs')).read())
+    m = re.search(r'const LOOKBACK_SIZE: usize = (\d+);', zl); m2 = re.search(r'if self\.out_pos > LOOKBACK_SIZE \* (\d+) \{', zl)
+    if not (m and m2):
+        report['zlib.constants'] = 'untranslatable'; return None
+    out += "Definition LOOKBACK_SIZE : Z := %s.\nDefinition COMPACT_FACTOR : Z := %s.\n" % (m.group(1), m2.group(1))
+    report['zlib.constants'] = 'regenerated'
+    md = strip_comments(open(os.path.join(src_dir, 'decoder', 'mod.rs')).read())
+    m = re.search(r'impl Default for Limits \{\s*fn default\(\) -> Limits \{\s*Limits \{\s*bytes: ([\d\s\*]+),', md)
+    if not m:
+        report['Limits::default'] = 'untranslatable'; return None
+    out += "Definition DEFAULT_LIMIT : Z := %d.\n" % eval(m.group(1))
+    report['Limits::default'] = 'regenerated'
+    tm = strip_comments(open(os.path.join(src_dir, 'text_metadata.rs')).read())
+    m = re.search(r'pub const DECOMPRESSION_LIMIT: usize = (\d+);', tm)
+    if not m:
+        report['DECOMPRESSION_LIMIT'] = 'untranslatable'; return None
+    out += "Definition DECOMPRESSION_LIMIT : Z := %s.\n" % m.group(1)
+    report['DECOMPRESSION_LIMIT'] = 'regenerated'
+    return out
+
 def main():
     src_dir, out_dir = sys.argv[1], sys.argv[2]
     os.makedirs(out_dir, exist_ok=True)
     report = {}
     changed = []
-    for fname, gen in [('GenPaeth.v', gen_paeth), ('GenAdam7.v', gen_adam7)]:
+    for fname, gen in [('GenPaeth.v', gen_paeth), ('GenAdam7.v', gen_adam7), ('GenStream.v', gen_stream)]:
         try:
             txt = gen(src_dir, report)
         except Exception as ex:      # any failure of the translator is "untranslatable", never a crash
